@@ -70,7 +70,11 @@ type Disk struct {
 	// Special: paths that behave like a FIFO or a /proc file - every stat (of the path or of an open
 	// descriptor) reports the size given here (0 for a FIFO), whatever the content is; reads deliver
 	// the whole content. os.ReadFile copes with that; code that trusts the reported size does not.
-	Special map[string]int64
+	Special   map[string]int64
+	fileReads int
+	// Links: symbolic links (absolute cleaned link path -> absolute cleaned target path). Every
+	// call but lstat/readlink follows them.
+	Links map[string]string
 	// ShadowDir: every path below this directory exists as a regular file holding
 	// UniversalContent (a working directory in which any relative name resolves).
 	ShadowDir string
@@ -158,6 +162,13 @@ const (
 )
 
 func (d *Disk) lookup(p string) (nodeKind, []byte) {
+	for hops := 0; hops < 8; hops++ {
+		t, ok := d.Links[p]
+		if !ok {
+			break
+		}
+		p = t
+	}
 	if c, ok := d.Files[p]; ok {
 		return nFile, c
 	}
@@ -244,11 +255,15 @@ type fileInfo struct {
 	name string
 	size int64
 	dir  bool
+	link bool
 }
 
 func (f fileInfo) Name() string { return f.name }
 func (f fileInfo) Size() int64  { return f.size }
 func (f fileInfo) Mode() iofs.FileMode {
+	if f.link {
+		return iofs.ModeSymlink | 0o777
+	}
 	if f.dir {
 		return iofs.ModeDir | 0o755
 	}
@@ -275,6 +290,10 @@ func (d *Disk) stat(op, name string) (os.FileInfo, error) {
 			return fileInfo{name: filepath.Base(p), dir: true}, nil
 		}
 		// content faults do not apply to a stat
+	}
+	if t, ok := d.Links[p]; ok && op == "lstat" {
+		d.log(op, name, nil, len(t), FNone)
+		return fileInfo{name: filepath.Base(p), size: int64(len(t)), link: true}, nil
 	}
 	k, c := d.lookup(p)
 	switch k {
@@ -579,6 +598,10 @@ func FSReadDir(name string) ([]os.DirEntry, error) {
 func FSReadlink(name string) (string, error) {
 	if d := sim(); d != nil {
 		d.nextFault()
+		if t, ok := d.Links[d.abs(name)]; ok {
+			d.log("readlink", name, nil, len(t), FNone)
+			return t, nil
+		}
 		err := &os.PathError{Op: "readlink", Path: name, Err: syscall.EINVAL}
 		if k, _ := d.lookup(d.abs(name)); k == nAbsent {
 			err.Err = syscall.ENOENT
@@ -606,10 +629,21 @@ func FSAbs(path string) (string, error) {
 
 func FSEvalSymlinks(path string) (string, error) {
 	if d := sim(); d != nil {
-		if _, err := d.stat("lstat", path); err != nil {
+		if _, err := d.stat("stat", path); err != nil {
 			return "", err
 		}
-		return filepath.Clean(path), nil
+		p := d.abs(path)
+		for hops := 0; hops < 8; hops++ {
+			t, ok := d.Links[p]
+			if !ok {
+				break
+			}
+			p = t
+		}
+		if !filepath.IsAbs(path) && d.Links[d.abs(path)] == "" {
+			return filepath.Clean(path), nil
+		}
+		return p, nil
 	}
 	return filepath.EvalSymlinks(path)
 }
@@ -776,4 +810,57 @@ func FileReaddir(f *os.File, n int) ([]os.FileInfo, error) {
 		out = append(out, e.fileInfo)
 	}
 	return out, err
+}
+
+// MaxFileReads bounds the number of Read/ReadAt calls that the code under test makes on opened
+// files in one run: a read loop that never ends (it ignores io.EOF, or waits for a size that the
+// file does not have) is a loop of system calls, far slower per step than the step budget assumes.
+const MaxFileReads = 200000
+
+// FileRead is f.Read(b), counted. On a special file (FIFO-like) a read may deliver fewer bytes
+// than asked for although more will follow - as io.Reader allows and pipes, sockets and network
+// file systems do; how many is drawn from the run's PRNG.
+func FileRead(f *os.File, b []byte) (int, error) {
+	if d := sim(); d != nil {
+		d.countRead()
+		if len(b) > 1 && len(d.Special) > 0 {
+			d.mu.Lock()
+			_, special := d.Special[d.abs(f.Name())]
+			d.mu.Unlock()
+			if special {
+				n := 1 + RandN(len(b))
+				if RandN(3) == 0 {
+					n = 1 + RandN(16)
+					if n > len(b) {
+						n = len(b)
+					}
+				}
+				ShortReads++
+				return f.Read(b[:n])
+			}
+		}
+	}
+	return f.Read(b)
+}
+
+// ShortReads counts reads that were cut short on special files (evidence).
+var ShortReads int
+
+// FileReadAt is f.ReadAt(b, off), counted.
+func FileReadAt(f *os.File, b []byte, off int64) (int, error) {
+	if d := sim(); d != nil {
+		d.countRead()
+	}
+	return f.ReadAt(b, off)
+}
+
+func (d *Disk) countRead() {
+	d.mu.Lock()
+	d.fileReads++
+	n := d.fileReads
+	d.mu.Unlock()
+	Tick()
+	if n > MaxFileReads {
+		panic(BudgetExceeded{What: "file-reads"})
+	}
 }
